@@ -347,9 +347,15 @@ class ExcelOpxWrapper(ExcelWrapper):
 
             if address.is_unbounded_range:
                 # bound the address range to the data in the spreadsheet
-                address = address & AddressRange(
+                bounded = address & AddressRange(
                     (1, 1, *self.max_col_row(sheet.title)),
                     sheet=sheet.title)
+                if not is_address(bounded):
+                    # outside of the used area, there is only empty cells
+                    bounded = AddressCell(
+                        (address.start.col_idx or 1, address.start.row or 1) * 2,
+                        sheet=sheet.title)
+                address = bounded
 
             cells = sheet[address.coordinate]
             cells_dataonly = sheet_dataonly[address.coordinate]
